@@ -1,4 +1,5 @@
 """C18 Generated XML, XHTML and SVG are well-formed and carry the data unchanged."""
+import hashlib
 import html.entities
 import io
 import os
@@ -41,17 +42,21 @@ MECHANISMS = [
 REQUIRED_MONITORS = ['tree_parses', 'tree_equals_model', 'contract:XmlStream.stacks', 'contract:XmlStream.exit', 'index_xml_parses',
                      'index_entries', 'index_rle_expansion', 'index_strings_recovered', 'html_rp66v1_parses', 'html_las_parses',
                      'html_lis_parses', 'svg_parses']
-MIN_NONTRIVIAL = {'quick': 5000, 'thorough': 150000}
+MIN_NONTRIVIAL = {'quick': 5000, 'thorough': 600000}
 TIMEOUT_S = {'quick': 400, 'thorough': 3300}
 NSHARDS = 16
-N_TREES = {'quick': 1000, 'thorough': 30000}
-N_RP66 = {'quick': 12, 'thorough': 300}
-N_LAS = {'quick': 8, 'thorough': 200}
-N_LIS = {'quick': 3, 'thorough': 40}
-N_SVG = {'quick': 2, 'thorough': 60}
+N_TREES = {'quick': 1000, 'thorough': 120000}
+N_RP66 = {'quick': 12, 'thorough': 1200}
+N_LAS = {'quick': 8, 'thorough': 800}
+N_LIS = {'quick': 3, 'thorough': 160}
+N_SVG = {'quick': 2, 'thorough': 240}
 EPS = sys.float_info.epsilon
 XHTML_NS = 'http://www.w3.org/1999/xhtml'
 SVG_NS = 'http://www.w3.org/2000/svg'
+
+
+def _h(b):
+    return hashlib.blake2b(b, digest_size=12).hexdigest()
 
 
 def plan(tier, seed):
@@ -535,7 +540,7 @@ def rp66_documents(ctx, src, k, cap):
         rec.cls('writer-raised:IndexXML:' + type(e).__name__)
         rec.note('writer_raised_example:IndexXML:' + type(e).__name__, {'source': src.name, 'message': str(e)[:200]})
     doc = out.getvalue()
-    rec.case(('index', src.data), hostile, classes=classes + ['doc:rp66v1-xml-index'],
+    rec.case(('index', _h(src.data)), hostile, classes=classes + ['doc:rp66v1-xml-index'],
              sample={'source': src.name, 'bytes': len(src.data), 'index_head': doc[:240]} if k == 1 else None)
     if doc:
         r1, r2 = check_document(rec, doc, 'index_xml_parses', 'XML index of %s' % src.name, cap, dict(wit, writer='IndexXML', writer_raised=repr(raised)[:200] if raised else None))
@@ -551,7 +556,7 @@ def rp66_documents(ctx, src, k, cap):
         rec.cls('writer-raised:ScanHTML:' + type(e).__name__)
         rec.note('writer_raised_example:ScanHTML:' + type(e).__name__, {'source': src.name, 'message': str(e)[:200]})
     doc = out.getvalue()
-    rec.case(('html', src.data), hostile, classes=classes + ['doc:rp66v1-html'])
+    rec.case(('html', _h(src.data)), hostile, classes=classes + ['doc:rp66v1-html'])
     if doc:
         check_document(rec, doc, 'html_rp66v1_parses', 'HTML summary of %s' % src.name, cap, dict(wit, writer='ScanHTML', writer_raised=repr(raised)[:200] if raised else None))
     os.unlink(fp)
@@ -686,7 +691,7 @@ def las_documents(ctx, name, text, k, cap, classes, hostile=True, encoding='utf-
         raised = e
         rec.cls('writer-raised:LASToHTML:' + type(e).__name__)
         rec.note('writer_raised_example:LASToHTML:' + type(e).__name__, {'source': name, 'message': str(e)[:200]})
-    rec.case(('lashtml', data), hostile, classes=classes + ['doc:las-html'])
+    rec.case(('lashtml', _h(data)), hostile, classes=classes + ['doc:las-html'])
     if os.path.exists(outp):
         with open(outp, encoding='utf-8', errors='surrogateescape') as f:
             doc = f.read()
@@ -711,7 +716,7 @@ def lis_documents(ctx, name, data, k, cap, classes, hostile):
         raised = e
         rec.cls('writer-raised:LisToHtml:' + type(e).__name__)
     gc.collect()            # the writer leaves its output file object to the garbage collector
-    rec.case(('lishtml', data), hostile, classes=classes + ['doc:lis-html'])
+    rec.case(('lishtml', _h(data)), hostile, classes=classes + ['doc:lis-html'])
     outp = fp + '.html'
     if os.path.exists(outp):
         with open(outp, encoding='utf-8', errors='surrogateescape') as f:
@@ -771,7 +776,7 @@ def svg_documents(ctx, k, cap):
                     raised = e
                     rec.cls('writer-raised:Plot:' + type(e).__name__)
                     rec.note('writer_raised_example:Plot:' + type(e).__name__, {'message': str(e)[:200], 'mnemonics': [repr(n) for n in names]})
-                rec.case(('svg', data, film.m, title), True, classes=['doc:svg-plot'] + ['svg:mnemonic-%r' % n for n in names])
+                rec.case(('svg', _h(data), repr(film.m), title), True, classes=['doc:svg-plot'] + ['svg:mnemonic-%r' % n for n in names])
                 if os.path.exists(out):
                     with open(out, encoding='utf-8', errors='surrogateescape') as f:
                         doc = f.read()
@@ -796,6 +801,10 @@ def run_shard(ctx, p):
     from tdv.mon import contracts
     contracts.install_xmlwrite_contracts()
     rec = ctx.rec
+    # all randomness derives from (seed, property, part) so that a replay of one shard's parameters repeats it
+    import random
+    ctx.shard = p['part']
+    ctx.rng = random.Random('%s:%s:%s' % (ctx.seed, ID, p['part']))
     t0 = time.time()
     run_trees(ctx, p['n_trees'])
     rec.add('seconds_trees', round(time.time() - t0, 2))
